@@ -13,7 +13,11 @@ func header(suite Suite, _ kyber.Point, x kyber.Scalar,
 
 	// Encrypt the master scalar key with each public key in the set
 	S := suite.Point()
-	hdr := xb1
+	// Build the header in fresh storage: xb1 may be a prefix of the caller's
+	// ciphertext, and appending to it would overwrite the very bytes the
+	// recomputed header is compared against.
+	hdr := make([]byte, 0, len(xb1)+len(xb2)*len(anonymitySet))
+	hdr = append(hdr, xb1...)
 	for i := range anonymitySet {
 		Y := anonymitySet[i]
 		S.Mul(x, Y) // compute DH shared secret
